@@ -76,6 +76,18 @@ func Main(args []string) int {
 		return mainSelftest(args[1:])
 	case "manifest":
 		return mainManifest()
+	case "gen-known":
+		dir := "/repo"
+		if len(args) > 1 {
+			dir = args[1]
+		}
+		src, err := load.GenKnownSource(dir)
+		if err != nil {
+			fmt.Fprintln(os.Stderr, err)
+			return 2
+		}
+		fmt.Print(src)
+		return 0
 	}
 	fmt.Fprintln(os.Stderr, "unknown command", args[0])
 	return 2
@@ -110,6 +122,9 @@ func mainCheck(args []string) (code int) {
 	}
 	c := NewCtx(p, *prop, *tier)
 	c.verif = *verif
+	for _, r := range p.Renames {
+		fmt.Printf("note: %s\n", r)
+	}
 	which := map[string]bool{}
 	for _, r := range ruleIDs {
 		which[r] = true
@@ -197,6 +212,7 @@ func mainCheck(args []string) (code int) {
 				"packages_loaded":   len(p.Pkgs),
 				"functions_in_root": len(c.funcs),
 				"tests_loaded":      p.WithTest,
+				"renames_assumed":   renameStrings(p.Renames),
 			}}
 		for k, v := range c.Extras {
 			m.Extra[k] = v
@@ -240,4 +256,12 @@ func (c *Ctx) thoroughExtras(which map[string]bool) {
 		lines = append(lines, r.Status+" "+r.Case.ID)
 	}
 	c.Extras["selftest_variants"] = lines
+}
+
+func renameStrings(rs []load.Rename) []string {
+	out := []string{}
+	for _, r := range rs {
+		out = append(out, r.String())
+	}
+	return out
 }
